@@ -1,8 +1,198 @@
-/- Model driver for C01 (stub: no ops yet). -/
+/-
+  Model driver for C01 (epw.py).  Line protocol: see DrvCore.  Imports only Mathlib-free files.
+  Text that may contain blanks is sent with every blank replaced by U+001F; a body line is its
+  comma-joined tokens (`~` = blank line); header lines are prefixed with `|`.
+-/
 import Ladybug.DrvCore
+import Ladybug.Model.Epw
+
+open Drv Epw
 
 namespace DrvC01
-def handle (_toks : List String) : String := "bad-op"
+
+def showErr : Err → String
+  | .value => "err:value"
+  | .index => "err:index"
+  | .assert => "err:assert"
+  | .key => "err:key"
+
+def us : Char := Char.ofNat 31
+def rs : String := String.singleton (Char.ofNat 30)
+
+def dec (s : String) : String := s.map fun c => if c == us then ' ' else c
+def enc (s : String) : String := s.map fun c => if c == ' ' then us else c
+
+def leapTok? (s : String) : Option (Option Bool) :=
+  if s = "Y" then some (some true) else if s = "N" then some (some false) else if s = "X" then some none else none
+
+def parseLine (s : String) : Option (List String) :=
+  if s = "~" then none else some ((dec s).splitOn ",")
+
+def showLeap (b : Option Bool) : String :=
+  match b with
+  | some true => "Y"
+  | some false => "N"
+  | none => "X"
+
+def hashStep (h x : Nat) : Nat := (h * 31 + x + 1) % 1000000007
+def hashList (l : List Nat) : Nat := l.foldl hashStep 7
+
+/-- ids of a synthetic file: cell (r, k) of an `nc`-column file carries `r * nc + k + 1`. -/
+def synthLines (nlines nc : Nat) (blank : Option Nat) : List (Option (List Nat)) :=
+  let rows := (List.range nlines).map fun r => some ((List.range nc).map fun k => r * nc + k + 1)
+  match blank with
+  | none => rows
+  | some p => rows.take p ++ [none] ++ rows.drop p
+
+def idCodec : Codec Nat Nat := ⟨fun _ t => some t, id⟩
+def idConv : Conv Nat := ⟨fun _ v => v, fun _ v => v⟩
+
+/-- light fingerprint of a column: length, sum, first and last value -/
+def colFp (c : List Nat) : Nat := hashList [c.length, c.sum, c.head?.getD 0, c.getLast?.getD 0]
+
+def fp (s : St Nat) : String :=
+  s!"h{showBool s.hdrLoaded}d{showBool s.dataLoaded}i{showBool s.isIp}l{showLeap s.leap}n{s.nf}c{hashList (s.cols.map colFp)}"
+
+/-- Run a history; answers one item per op: `<result>@<state fingerprint>`; stops after an error of
+    the loading step (the real object is then half-built). -/
+def runHist (f : File Nat) (ops : List String) : List String :=
+  let ensure (s : St Nat) : Except Err (St Nat) := s.loadData idCodec pit f
+  let rec go (fuel : Nat) (s : St Nat) (ops : List String) (acc : List String) : List String :=
+    match fuel, ops with
+    | 0, _ => acc
+    | _, [] => acc
+    | fuel + 1, op :: rest =>
+      let fail (e : Err) := acc ++ [showErr e ++ "@stop"]
+      if op = "H" then
+        let s' := s.loadHeader f
+        go fuel s' rest (acc ++ ["ok@" ++ fp s'])
+      else
+        match ensure s with
+        | .error e => fail e
+        | .ok s1 =>
+          if op = "L" then go fuel s1 rest (acc ++ ["ok@" ++ fp s1])
+          else if op = "I" then let s2 := s1.toIp idConv; go fuel s2 rest (acc ++ ["ok@" ++ fp s2])
+          else if op = "S" then let s2 := s1.toSi idConv; go fuel s2 rest (acc ++ ["ok@" ++ fp s2])
+          else if op = "W" then
+            let (r, s2) := s1.toFileString idCodec pit idConv
+            let out := match r with
+              | .ok rows => s!"ok{rows.length}:{hashList (rows.map hashList)}"
+              | .error e => showErr e
+            go fuel s2 rest (acc ++ [out ++ "@" ++ fp s2])
+          else if op.startsWith "F" then
+            -- failing write: field k loses its last stored value for the duration of the call
+            match (op.drop 1).toNat? with
+            | none => acc ++ ["bad-op"]
+            | some k =>
+              let st := { s1 with cols := s1.cols.mapIdx fun j (c : List Nat) => if j = k then c.dropLast else c }
+              let (r, s2) := st.toFileString idCodec pit idConv
+              let out := match r with
+                | .ok rows => s!"ok{rows.length}:{hashList (rows.map hashList)}"
+                | .error e => showErr e
+              let same := decide (s2.cols = st.cols) && s2.isIp == st.isIp
+              go fuel s1 rest (acc ++ [out ++ "@" ++ fp s2 ++ (if same then "=" else "#")])
+          else if op = "E" || op = "B" then
+            let n := hoursInYear (s1.leap.getD false)
+            let hoys := if op = "B" then some [5, n] else none
+            let (r, s2) := s1.toWea idConv hoys
+            let out := match r with
+              | .ok ls => s!"ok{ls.length}:{hashList (ls.map fun (m, d, h, a, b) => hashList [m, d, h, a, b])}"
+              | .error e => showErr e
+            go fuel s2 rest (acc ++ [out ++ "@" ++ fp s2])
+          else if op = "M" then
+            let ls := (mosTable s1.cols).mapIdx fun i l => hashList (mosTime i :: l)
+            go fuel s1 rest (acc ++ [s!"ok{ls.length}:{hashList ls}@" ++ fp s1])
+          else if op = "D" then
+            -- to_dict -> from_dict: a fully loaded object with the same data
+            let s2 := { s1 with hdrLoaded := true, dataLoaded := true }
+            go fuel s1 rest (acc ++ ["ok@" ++ fp s2])
+          else acc ++ ["bad-op"]
+  go (ops.length + 1) ⟨false, false, false, none, 35, []⟩ ops []
+
+def showCols (cols : List (List Cell)) : String :=
+  ";".intercalate (cols.map fun c => ",".intercalate (c.map showCell))
+
+def showStamp (r : Except Cal.Err (Nat × Nat × Nat)) : String :=
+  match r with
+  | .ok (m, d, h) => s!"{m}/{d}/{h}"
+  | .error _ => "err"
+
+def showWeeks (l : List (String × Week)) : String :=
+  ",".intercalate (l.map fun p => s!"{p.1}={p.2.stM}/{p.2.stD}-{p.2.endM}/{p.2.endD}")
+
+def showDict (l : List (String × String)) : String := ",".intercalate (l.map fun p => p.1 ++ "=" ++ p.2)
+
+def showNum (v : Option (Bool × Nat × Int)) : String :=
+  match v with
+  | none => "0"
+  | some x => decNum.sf x
+
+def describe (h : Hdr (Bool × Nat × Int)) : List String :=
+  [h.city, h.state, h.country, h.source, h.station, showNum h.lat, showNum h.lon, decNum.sf h.tz,
+   decNum.sf h.elev, showBool h.is2009, showDict h.heating, showDict h.cooling, showDict h.extremes,
+   showWeeks h.hot, showWeeks h.cold, showWeeks h.typical,
+   ";".intercalate (h.ground.map fun g =>
+     ":".intercalate ([decNum.sf g.depth, g.cond, g.dens, g.heat] ++ g.vals.map decNum.sf)),
+   showLeap h.leap, h.dstStart, h.dstEnd, ",".intercalate h.comments1, ",".intercalate h.comments2]
+
+def hdrLines (toks : List String) : Option (List (List String)) :=
+  toks.mapM fun t => if t.startsWith "|" then some ((dec (t.drop 1).toString).splitOn ",") else none
+
+def handle (toks : List String) : String :=
+  match toks with
+  | ["flags"] =>
+    let o (l : List (Option String)) := ",".intercalate (l.map fun x => x.getD "-")
+    s!"ok {Gen.EpwFields.count} {",".intercalate (Gen.EpwFields.valueType.map toString)} " ++
+      s!"{",".intercalate (Gen.EpwFields.pointInTime.map showBool)} {enc (o Gen.EpwFields.unit)} " ++
+      s!"{o Gen.EpwFields.missing} {",".intercalate Gen.EpwFields.dataType}"
+  | "brw" :: lp :: lines =>
+    -- import (columns after rotation), then write (rows; are the columns restored?)
+    match leapTok? lp with
+    | none => "bad-op"
+    | some l =>
+      match importBody decCodec pit l (lines.map parseLine) with
+      | .error e => showErr e
+      | .ok b =>
+        let (r, cols2) := writeBody decCodec pit b.leap b.cols
+        let w := match r with
+          | .error e => showErr e
+          | .ok rows => s!"ok {showBool (decide (cols2 = b.cols))} {";".intercalate (rows.map fun r => ",".intercalate r)}"
+        enc s!"ok {b.nf} {showBool b.leap} {showCols b.cols} | {w}"
+  | "hdr" :: ls =>
+    match hdrLines ls with
+    | none => "bad-op"
+    | some lines =>
+      match parseHeader decNum lines with
+      | .error e => showErr e
+      | .ok h =>
+        let r := match renderHeader decNum decLt h with
+          | .error e => showErr e
+          | .ok out => rs.intercalate (out.map fun l => ",".intercalate l)
+        enc ("ok " ++ rs.intercalate (describe h) ++ rs ++ rs ++ r)
+  | ["stamps", lp] =>
+    match bool? lp with
+    | none => "bad-op"
+    | some l => "ok " ++ joinSp ((List.range (hoursInYear l)).map fun i => showStamp (missingStamp l i))
+  | ["dts", lp] =>
+    match bool? lp with
+    | none => "bad-op"
+    | some l => "ok " ++ joinSp ((List.range (hoursInYear l)).map fun i =>
+        match datetimeOfIndex l i with
+        | .ok d => s!"{d.month}/{d.day}/{d.hour}/{d.minute}"
+        | .error _ => "err")
+  | ["rowmin", lp] =>
+    match bool? lp with
+    | none => "bad-op"
+    | some l => "ok " ++ joinSp ((List.range (hoursInYear l)).map fun r =>
+        s!"{(stampOfRow r).1}/{(stampOfRow r).2}/{minuteOfStamp l (stampOfRow r)}/{indexOfRow pit (hoursInYear l) 6 r}/{indexOfRow pit (hoursInYear l) 14 r}")
+  | "hist" :: lp :: nl :: nc :: bl :: ops =>
+    match leapTok? lp, nl.toNat?, nc.toNat?, bl.toInt? with
+    | some l, some nl, some nc, some bl =>
+      let blank := if bl < 0 then none else some bl.toNat
+      joinSp (runHist ⟨l, synthLines nl nc blank⟩ ops)
+    | _, _, _, _ => "bad-op"
+  | _ => "bad-op"
+
 end DrvC01
 
 def main : IO Unit := Drv.run DrvC01.handle
